@@ -192,11 +192,23 @@ Definition r_frame (f : frame) : list string :=
       ["""message"""; r_s side; r_s phase; r_s body; r_Z rx; r_os id]
   end.
 
-Definition r_log_entry (l : log_entry) : string :=
+(** a commit entry carries the snapshot that was committed (what an independent reader of the file sees
+    from then on -- and what a crash right there leaves), abbreviated to "=" when it is textually the
+    snapshot shown last for that database ([prev]: channel, usage) *)
+Definition r_log_entry (prev : string * string) (l : log_entry) : string * (string * string) :=
   match l with
-  | LCommitChan _ => "[""C""]"
-  | LCommitUsage _ => "[""U""]"
-  | LFrame c f clean tx => r_tuple ("""F""" :: r_nat c :: r_b clean :: r_frame f ++ [r_Z tx])
+  | LCommitChan d => let c := r_chan d in
+      ("[""C""," ++ (if seqb (fst prev) c then """=""" else c) ++ "]", (c, snd prev))
+  | LCommitUsage u => let x := r_usage u in
+      ("[""U""," ++ (if seqb (snd prev) x then """=""" else x) ++ "]", (fst prev, x))
+  | LFrame c f clean tx => (r_tuple ("""F""" :: r_nat c :: r_b clean :: r_frame f ++ [r_Z tx]), prev)
+  end.
+
+Fixpoint r_log (prev : string * string) (l : list log_entry) : list string * (string * string) :=
+  match l with
+  | [] => ([], prev)
+  | e :: l' => let '(x, p1) := r_log_entry prev e in
+               let '(xs, p2) := r_log p1 l' in (x :: xs, p2)
   end.
 
 Definition r_exn (e : exn) : string :=
@@ -235,11 +247,13 @@ Definition r_obs (s' : state) (o : obs) (kf : list nat) (r : rstate) : string * 
   let chc := r_chan (chan_c s') in
   let us := r_usage (usage_w s') in
   let usc := r_usage (usage_c s') in
+  let '(lg, p1) := r_log (r_prev_chan_c r, r_prev_usage_c r) (o_log o) in
+  let '(bl, _) := r_log p1 (o_boot_log o) in
   ("{""valid"":" ++ r_b (o_valid o) ++
    ",""exc"":" ++ match o_exc o with Some e => r_exn e | None => "null" end ++
    ",""kf"":" ++ r_list r_nat kf ++
-   ",""log"":" ++ r_list r_log_entry (o_log o) ++
-   ",""boot"":" ++ r_list r_log_entry (o_boot_log o) ++
+   ",""log"":" ++ r_tuple lg ++
+   ",""boot"":" ++ r_tuple bl ++
    ",""chan"":" ++ abbreviate (r_prev_chan r) ch ++
    ",""chan_c"":" ++ abbreviate (r_prev_chan_c r) chc ++
    ",""usage"":" ++ abbreviate (r_prev_usage r) us ++
